@@ -11,6 +11,8 @@ META = {
     "note": "rename(2) is atomic and link(2) fails with EEXIST rather than replacing (POSIX); gen_obj uses lstat unless given a stat",
 }
 META["technique"] += "; " + 'generic pack G on the anchored files (optional-flag shift, closures outliving a loop iteration, single-pass iterables consumed twice, %-templates built from data, in-place writes to class-level / memoised objects, generators mutating what they yielded, memo keys that are projections)'
+META["technique"] += "; who-may-call rule for ownership changes (lchown / follow_symlinks=False only)"
+META["level"] += " (R4) every chown-family call in fs/ops.py is one that does not follow symlinks."
 MOD = "pkgcore.fs.ops"
 
 
@@ -144,6 +146,18 @@ def run(ctx):
     ctx.check("R3", mc, len([c for c in A.calls(mc.node) if dotted(c.func) == "copyfile"]) == 1 and len([c for c in A.calls(mc.node) if dotted(c.func) == "do_link"]) == 1,
               "only-via-copyfile-or-link", "non-directories reach the filesystem only through copyfile or do_link")
 
+    # ---- R4 ownership never goes through a symlink ---------------------------------------------------
+    # what sits at <location> (or at '<location>#new') on the live filesystem may be a symlink whatever kind the entry to be
+    # merged has; a chown that follows it changes a path outside the contents set.  chown-family calls in fs/ops.py: lchown only.
+    owners = [(f, c) for f in P.module(MOD).funcs.values() for c in A.calls(f.node) if (dotted(c.func) or "") in ("os.chown", "os.lchown", "os.fchown", "shutil.chown")]
+    ctx.require(owners, "fs/ops.py: no chown-family call found (ownership idiom changed)")
+    for f, c in owners:
+        nofollow = dotted(c.func) == "os.lchown" or any(k.arg == "follow_symlinks" and A.is_const(k.value, False) for k in c.keywords)
+        ctx.check("R4", f, nofollow, f"ownership-follows-symlink:{dotted(c.func)}", f"`{A.unparse(c)[:50]}` does not follow a symlink",
+                  f"{f.qual} sets ownership with `{A.unparse(c)[:60]}`, which follows symlinks: when the path (or a '#new' sibling left behind) is a symlink on the live filesystem, "
+                  f"the owner of its target — a path outside the contents set — is changed", node=c)
+    ctx.floor("R4", 1)
+
 
 MUTANTS = [
     {"name": "perms-after-rename", "file": "src/pkgcore/fs/ops.py", "old": "    ensure_perms(obj.change_attributes(location=fp))\n\n    if existent:\n        os.rename(existent_fp, obj.location)\n", "new": "    if existent:\n        os.rename(existent_fp, obj.location)\n    ensure_perms(obj)\n", "rule": "R1"},
@@ -153,4 +167,9 @@ MUTANTS = [
     {"name": "never-stage", "file": "src/pkgcore/fs/ops.py", "old": "    if not existent:\n        fp = obj.location\n    else:\n        fp = existent_fp = obj.location + \"#new\"", "new": "    if existent:\n        fp = obj.location\n    else:\n        fp = existent_fp = obj.location + \"#new\"", "rule": "R1"},
     {"name": "fallback-links-target", "file": "src/pkgcore/fs/ops.py", "old": "        os.link(src.location, path)\n", "new": "        os.unlink(trg.location)\n        os.link(src.location, trg.location)\n        return True\n", "rule": "R2"},
 ]
-TWINS = []
+MUTANTS += [
+    {"name": "chown-follows-symlinks", "file": "src/pkgcore/fs/ops.py", "old": "        os.lchown(d1.location, o, g)\n", "new": "        os.chown(d1.location, o, g)\n", "rule": "R4"},
+]
+TWINS = [
+    {"name": "chown-with-follow-symlinks-false", "file": "src/pkgcore/fs/ops.py", "old": "        os.lchown(d1.location, o, g)\n", "new": "        os.lchown(d1.location, o, g)\n        os.chown(d1.location, o, g, follow_symlinks=False)\n"},
+]
